@@ -17,24 +17,35 @@ PID = "C15"
 COQ_HEADER = ("From stdpp Require Import gmap strings.\nFrom SK Require Import lib.Tok model.C15_Model model.C15_Ext.\n"
               "Local Open Scope string_scope.\n")
 SHARD = 150
-RULE = ("operation histories over k networks (add generated/explicit id, remove reaction, remove species +/- prune, "
-        "merge +/- prefix, copy, assign/set molecule labels); exhaustive short suffixes after fixed preambles + seeded "
-        "random histories; a case is non-trivial when at least one op succeeds after the first and at least one "
-        "remove/merge/copy op occurs; distinct = distinct op lists")
+RULE = ("operation histories over k networks. Old language (add generated/explicit id, remove reaction, remove species +/- prune, "
+        "merge +/- prefix, copy, assign/set molecule labels): exhaustive short suffixes after fixed preambles + seeded random histories. "
+        "Extended language (kinds h2-*: every input form of add_rxn, sides given as RXNSide objects of another network / caller-held objects "
+        "edited afterwards, duck-typed merge, coefficient edits through returned edges, all queries: __contains__, __len__, iteration, "
+        "species_list, get_edge + HyperEdge views, neighbors, paths, incidence_matrix sparse/dense + alias, get_mol; name overlaps "
+        "species<->reaction ids, falsy labels, call styles positional/keyword/default): every op once after a preamble, "
+        "query->edit->query triples, sampled pairs, copy-then-edit, random histories, one >=100-reaction history. "
+        "A case is non-trivial when at least two ops succeed and a remove/merge/copy op occurs; distinct = distinct op lists")
 EXHAUSTIVE = {"quick": False, "thorough": False}
 EXPLANATION = ("Theorems: invariant (indices exact, species = occurring (+kept), mol within species, ids unique, order list = key set) "
-               "for every reachable world; frame/independence of networks; refinement to the id->reaction spec; incidence = products - reactants. "
-               "Correspondence: model state compared with the implementation after every operation.")
+               "for every reachable world of the old and of the extended history language; frame/independence of networks and of caller-held "
+               "side objects; queries never change the state; refinement to the id->reaction spec; exact label semantics (labels only for present "
+               "species, never for reaction ids; last entry wins; no truthiness test); RXNSide normalisation = positive multiset of positive counts; "
+               "incidence sparse and dense = products - reactants; neighbors exact; paths sound. "
+               "Correspondence: model state (and every answer handed back) compared with the implementation after every operation.")
 TRUSTED_BASE = [
     "Coq 8.16.1 kernel + vm_compute (no native_compute)",
     "std++ 1.8.0 gmap/gset (axiom-free)",
-    "hand-written model coq/model/C15_Model.v tied to synkit/CRN/Hypergraph/{hypergraph,rxn,hyperedge}.py by the per-run correspondence",
-    "harness encoders harness/props/C15.py (op list -> Gallina literal; attributes -> tok)",
+    "hand-written models coq/model/C15_Model.v + coq/model/C15_Ext.v tied to synkit/CRN/Hypergraph/{hypergraph,rxn,hyperedge}.py by the per-run correspondence",
+    "harness encoders harness/props/C15.py + harness/gen/c15_ext.py (op list -> Gallina literal; attributes/answers -> tok; str()/int() coercion of labels and counts; json.dumps of molecule labels)",
     "CPython dict/set semantics; copy.deepcopy",
 ]
 ASSUMPTIONS = ["species labels and ids are printable ASCII strings", "molecule labels are strings",
                "RXNSide input given as iterable of (label, int) pairs"]
-TESTED_NOT_PROVED = ["dense incidence_matrix(sparse=False) equals the sparse one (oracle only)"]
+TESTED_NOT_PROVED = ["paths: completeness and the order of the answers, max_paths truncation (oracle: brute-force enumeration of simple paths)",
+                     "__repr__ (oracle: reference rendering of the stored state)",
+                     "insertion order inside a side (RXNSide.to_dict / expand order); sides are unordered maps in the model",
+                     "numpy array construction of the dense matrix (the model has lists of rows)",
+                     "set_mol_map with non-string keys (outside the model's domain; oracle only)"]
 
 ERR = {None: 0, "KeyError": 1, "ValueError": 2}
 
@@ -400,7 +411,10 @@ LEVEL_TEXT = ("Machine-checked proof (Coq) over an executable model of CRNHyperG
               "species plus explicitly kept ones, molecule labels within species, insertion-order list = key set, no empty reaction) holds in "
               "every world reachable by any sequence of add/remove/remove-species/merge/copy/label operations on any number of networks; "
               "operations on one network never change another (copy / merge independence); stored reactions are only changed as the abstract "
-              "id->reaction specification prescribes; incidence = products - reactants. The model is tied to the Python code by comparing the "
-              "complete public state after every operation of thousands of generated histories on every run.")
+              "id->reaction specification prescribes; incidence (sparse and dense) = products - reactants. Round 3: the same for the extended "
+              "history language covering the whole public surface (all input forms, RXNSide objects passed in, duck-typed merge, coefficient "
+              "edits, every query): queries never change the state, labels are stored exactly for present species and never for reaction ids, "
+              "neighbors exact, paths sound. The model is tied to the Python code by comparing the complete public state and every answer after "
+              "every operation of thousands of generated histories on every run.")
 LEVEL_NOTE = ("Trusted: Coq kernel + vm_compute, std++; the hand-written model and the harness encoders; CPython dict/set/deepcopy semantics. "
-              "Modelled, not verified: dense numpy incidence matrix (oracle-compared only); parse_rxns / add_rxn_from_str belong to C16.")
+              "Tested only: completeness/order of paths, __repr__, numpy construction of the dense matrix; parse_rxns / add_rxn_from_str belong to C16.")
